@@ -105,6 +105,9 @@ int merge_msa(struct msa** dest, struct msa* src)
         }
 
         for(i = 0; i < src->numseq;i++){
+                if(d->alloc_numseq == d->numseq){
+                        RUN(resize_msa(d));
+                }
                 free_msa_seq(d->sequences[d->numseq]);
                 d->sequences[d->numseq] = src->sequences[i];
                 src->sequences[i] = NULL;
